@@ -10,6 +10,7 @@ def plans(tier):
             ("thr2", pc.consts(S, win=1, thr=2, outcomes=("ok", "fail"))),
             ("active", pc.consts(["round_robin", "weighted_round_robin", "ip_hash"], win=1, passive=False, active=True, outcomes=("ok",))),
             ("active+passive", pc.consts(["round_robin", "ip_hash_consistent"], N=2, N0=2, weight="W111", win=1, thr=2, active=True, outcomes=("ok", "fail"))),
+            ("readd", pc.consts(["round_robin"], N=2, N0=2, weight="W111", win=1, thr=2, passive=True, admin=True, clients=(1,), outcomes=("ok", "fail"))),
         ]
     return [
         ("thr1", pc.consts(S, win=2, thr=1, outcomes=("ok", "fail"))),
@@ -19,6 +20,7 @@ def plans(tier):
         ("active", pc.consts(S, win=2, passive=False, active=True, mark=True, outcomes=("ok",))),
         ("active+passive", pc.consts(S, win=1, thr=2, active=True, outcomes=("ok", "fail"))),
         ("abort", pc.consts(S, win=1, thr=2, outcomes=("ok", "fail", "abort"))),
+        ("readd", pc.consts(["round_robin", "ip_hash"], N=2, N0=2, weight="W111", win=1, thr=3, passive=True, admin=True, clients=(1,), outcomes=("ok", "fail"))),
     ]
 
 
